@@ -53,7 +53,10 @@ def load_contracts():
 # properties whose frame obligations are generated for EVERY function under contract
 UNIVERSAL_FRAME_PROPS = {"C19": None,      # no undeclared global reads / writes anywhere
                          "C13": ("nasim.envs.",),   # purity: everything generative_step can reach
-                         "C14": ("nasim.envs.",)}   # determinism: nobody draws from / re-seeds the global RNG undeclared
+                         "C14": ("nasim.envs.",),   # determinism: nobody draws from / re-seeds the global RNG undeclared
+                         # independence of the draws (C07): the environment-level operations around an action (reset, step,
+                         # constructors) neither draw nor re-seed
+                         "C07": ("nasim.envs.environment.", "nasim.envs.gym_env.")}
 
 
 # a property whose argument rests on another one (DESIGN 5/C20: "every value is paid at most once" is C05) is also decided
